@@ -96,7 +96,7 @@ var properties = map[string]*Property{
 		NotDecided: "counters, returned lengths, call-history semantics.",
 	},
 	"C18": {
-		Rules:      []string{"R-GLOBAL-RO", "R-OWN", "R-HASH-PURE", "R-TOKEN", "R-BWT-WORKER", "R-BUF-FRESH"},
+		Rules:      []string{"R-GLOBAL-RO", "R-OWN", "R-HASH-PURE", "R-TOKEN", "R-BWT-WORKER", "R-BUF-FRESH", "R-GOREC"},
 		Decided:    "package-level state is written only during initialisation (including through aliases handed to instances); tasks of one instance share only classified state, each class with its obligation (atomic counter, pure hashers, token-guarded stream, per-task buffers); inverse-BWT workers store only through dst. Buffer slots shared between a reader/writer and its tasks are only re-pointed to fresh allocations.",
 		NotDecided: "disjointness of dst ranges of BWT workers (arithmetic); user listeners.",
 	},
